@@ -662,6 +662,20 @@ def check_phase(ctx, repo):
                               "%s takes the phase reference and seasonal_ from different series" % tag, loc)
             elif "seasonal_" in may:
                 ctx.violation("R3", tag + ":pair", "%s re-estimates seasonal_ without moving the phase reference _y_index" % tag, loc)
+        # state derived from the phase pair (caches) is invalidated wherever the pair is re-estimated
+        stale = derived_state(repo, c)
+        seen = set()
+        for (mn, d, f, where, k, fn) in stale:
+            if f != "seasonal_" or (mn, d) in seen:
+                continue  # (a cache keyed by the shift follows _y_index by construction; seasonal_ is what goes stale)
+            seen.add((mn, d))
+            ctx.violation("R3", "%s.%s:derived:self.%s" % (c.name, mn, d),
+                          "%s.%s re-estimates self.%s but leaves self.%s, which is computed from it (at %s), untouched: afterwards "
+                          "transform / inverse_transform use the stale value of the previous fit" % (c.name, mn, f, d, where), ctx.loc(k.module, fn),
+                          witness={"derived": d, "source": f, "computed_at": where})
+        if not seen:
+            ctx.ok("R3", "%s:derived-state" % c.name, "no attribute computed from seasonal_/_y_index survives a re-estimation", ctx.loc(c.module, c.node),
+                   nontrivial=False)
     return n
 
 
@@ -675,6 +689,42 @@ def expand(repo, cls, fn, defcls, expr):
         v = expr
     v = astq.inline_locals(fn, v)
     return rename_self(v, selfname) if selfname != "self" else v
+
+
+def derived_state(repo, cls):
+    """[(public method, derived attr D, source attr F, store location)]: D is stored (anywhere in the class) with a value computed from
+    self.F, F is (re-)written by the public method, but the method does not write D on every path -> D is stale afterwards."""
+    methods = {}
+    for k in reversed(repo.mro(cls)):
+        if isinstance(k, ClassInfo):
+            for mn, fn in k.methods.items():
+                methods[mn] = (k, fn)
+    if "fit" not in methods:
+        return []
+    fitted = attr_writes(repo, cls, methods["fit"][1], methods["fit"][0], must=False)
+    deps = {}
+    for mn, (k, fn) in methods.items():
+        if mn == "__init__":
+            continue
+        selfname = astq.param_names(fn)[0] if astq.param_names(fn) and not k.is_static(mn) else None
+        if not selfname:
+            continue
+        for attr, v, st in astq.self_attr_stores(fn, selfname):
+            if v is None:
+                continue
+            v2 = astq.inline_locals(fn, v)
+            for n in ast.walk(v2):
+                if astq.is_self_attr(n, selfname) and n.attr in fitted and n.attr != attr:
+                    deps.setdefault((attr, n.attr), "%s:%s" % (k.module.relpath, st.lineno))
+    out = []
+    for (d, f), where in sorted(deps.items()):
+        for mn, (k, fn) in sorted(methods.items()):
+            if mn.startswith("_"):
+                continue
+            may = attr_writes(repo, cls, fn, k, must=False)
+            if f in may and d not in attr_writes(repo, cls, fn, k, must=True):
+                out.append((mn, d, f, where, k, fn))
+    return out
 
 
 def same_series(repo, cls, fn, defcls):
@@ -700,6 +750,10 @@ def same_series(repo, cls, fn, defcls):
                     for c in calls:
                         if c.args:
                             est_srcs.append(astq.canon(c.args[0]))
+                    for c in ast.walk(n.value):
+                        # the old component re-based relative to a series: self._align_seasonal(<series>)
+                        if isinstance(c, ast.Call) and isinstance(c.func, ast.Attribute) and c.func.attr == "_align_seasonal" and c.args:
+                            est_srcs.append(astq.canon(astq.inline_locals(fn, c.args[0])))
     if not ref_args:
         return None
     if not est_srcs:
@@ -845,31 +899,54 @@ def check_alignment(ctx, repo):
                 if attr != "seasonal_" or v is None or (isinstance(v, ast.Constant) and v.value is None):
                     continue
                 v2 = expand(repo, c, f2, c, v)
-                ok = period_length_ok(repo, c.module, f2, v2)
+                ok, why = period_length_ok(repo, c.module, f2, v2)
                 ordinal += 1
                 ctx.check(ok, "R4", "%s.%s:period" % (c.name, mn), "seasonal_ holds exactly sp values (store %d)" % ordinal,
-                          "seasonal_ = `%s` does not hold exactly self.sp values, so rolling it is not a rotation of one period"
-                          % ast.unparse(v)[:80], ctx.loc(c.module, st))
+                          "%s.%s: seasonal_ = `%s` does not hold exactly self.sp values%s, so rolling it is no longer a rotation of one period "
+                          "and later alignments read a truncated / over-long pattern" % (c.name, mn, ast.unparse(v)[:80], why), ctx.loc(c.module, st),
+                          witness={"value": ast.unparse(v2)[:300], "why": why})
 
 
 def period_length_ok(repo, module, fn, v):
+    """(True|False|None, explanation): does the stored value hold exactly self.sp values?"""
     def is_sp(e):
-        c = astq.canon(e)
-        if c in ("self.sp", "check_sp(self.sp)"):
-            return True
-        return False
+        return astq.canon(e) in ("self.sp", "check_sp(self.sp)")
+
+    def ext(e):
+        sy = repo.resolve_expr(module, e)
+        return sy.dotted if sy is not None else None
 
     alts = [v.body, v.orelse] if isinstance(v, ast.IfExp) else [v]
     res = []
+    why = ""
     for a in alts:
-        if isinstance(a, ast.Subscript) and isinstance(a.value, ast.Attribute) and a.value.attr == "iloc" and isinstance(a.slice, ast.Slice):
-            s = a.slice
-            res.append((s.lower is None or astq.const_value(s.lower) == 0) and s.step is None and s.upper is not None and is_sp(s.upper))
-        elif isinstance(a, ast.Call) and dotted(a.func) in ("np.zeros", "np.ones", "np.full") and a.args:
+        if isinstance(a, ast.Subscript) and isinstance(a.slice, ast.Slice):
+            sl = a.slice
+            head = (sl.lower is None or astq.const_value(sl.lower) == 0) and sl.step is None and sl.upper is not None and is_sp(sl.upper)
+            base = a.value.value if isinstance(a.value, ast.Attribute) and a.value.attr == "iloc" else a.value
+            if isinstance(base, ast.Attribute) and base.attr == "seasonal" and isinstance(base.value, ast.Call) \
+                    and (ext(base.value.func) or "").endswith("seasonal_decompose"):
+                # statsmodels refuses series shorter than two periods, so the first sp components exist
+                res.append(head)
+                if not head:
+                    why = " (slice `%s` is not the first self.sp components)" % ast.unparse(sl)
+            elif isinstance(base, ast.Call) and ext(base.func) == "numpy.resize" and len(base.args) >= 2:
+                n_ = base.args[1]
+                if head and is_sp(n_):
+                    res.append(True)
+                else:
+                    res.append(False)
+                    why = (" (a slice [:sp] of an array of length n = `%s` has min(n, sp) values: for a series shorter than the period, "
+                           "e.g. n = 1 < sp, only n values remain)" % ast.unparse(n_))
+            else:
+                return None, " (length of `%s` unknown)" % ast.unparse(base)[:60]
+        elif isinstance(a, ast.Call) and ext(a.func) in ("numpy.zeros", "numpy.ones", "numpy.full") and a.args:
             res.append(is_sp(a.args[0]))
+            if not res[-1]:
+                why = " (array of length `%s`)" % ast.unparse(a.args[0])
         else:
-            return None
-    return all(res)
+            return None, " (`%s` not in the length table)" % ast.unparse(a)[:60]
+    return all(res), why
 
 
 def duration_semantics(repo, fn):
@@ -891,7 +968,8 @@ def duration_semantics(repo, fn):
 
 # ====================================================================================== R5
 
-POS_CALLS = {"builtins.range", "numpy.arange"}
+POS_CALLS = {"builtins.range", "numpy.arange", "numpy.flatnonzero", "numpy.argwhere", "numpy.nonzero", "numpy.argsort", "numpy.argmax",
+             "numpy.argmin", "numpy.nanargmax", "numpy.nanargmin", "numpy.searchsorted"}
 
 
 class PosLabel:
@@ -1169,7 +1247,54 @@ def check_fit_transform(ctx, repo):
                 ok = None
                 why = "override returns `%s`" % (ast.unparse(val)[:80] if val is not None else None)
                 break
+        if ok is None:
+            # a single-pass override: necessary conditions of agreeing with fit().transform() for every configuration
+            miss_opt, miss_attr = override_gaps(repo, c, f2)
+            if miss_opt:
+                ok = False
+                why = ("fit reads the constructor option(s) %s but the fit_transform override never does (the option is not forwarded), so for a "
+                       "non-default value fit_transform(z) differs from fit(z).transform(z)" % ", ".join("self." + o for o in miss_opt))
+            elif miss_attr:
+                ok = False
+                why = "fit stores %s, the fit_transform override does not: the estimator is left in a different fitted state" % \
+                      ", ".join("self." + a for a in miss_attr)
         ctx.check(ok, "R6", "%s.fit_transform" % c.name, why, "override of fit_transform disagrees with fit(...).transform(...): %s" % why, loc2)
+
+
+def self_reads(repo, cls, fn, seen=None, depth=0):
+    """self attributes read by ``fn`` (transitively through self.method() calls)"""
+    seen = seen or set()
+    if id(fn) in seen or depth > 5:
+        return set()
+    seen = seen | {id(fn)}
+    selfname = astq.param_names(fn)[0] if astq.param_names(fn) else "self"
+    out = set()
+    for n in ast.walk(fn):
+        if isinstance(n, ast.Attribute) and isinstance(n.ctx, ast.Load) and isinstance(n.value, ast.Name) and n.value.id == selfname:
+            hit = repo.lookup_method(cls, n.attr)
+            if hit and n.attr not in hit[0].properties:
+                out |= self_reads(repo, cls, hit[1], seen, depth + 1)
+            else:
+                out.add(n.attr)
+    return out
+
+
+def override_gaps(repo, cls, override):
+    """(constructor options read by fit/transform but not by the override, attributes fit stores but the override does not)"""
+    params = set()
+    for k in repo.mro(cls):
+        if isinstance(k, ClassInfo) and "__init__" in k.methods:
+            params |= set(astq.all_param_names(k.methods["__init__"], skip_self=True))
+    hf, ht = repo.lookup_method(cls, "fit"), repo.lookup_method(cls, "transform")
+    need = set()
+    for h in (hf, ht):
+        if h:
+            need |= self_reads(repo, cls, h[1]) & params
+    have = self_reads(repo, cls, override)
+    miss_opt = sorted(need - have)
+    stores = attr_writes(repo, cls, hf[1], hf[0], must=True) if hf else set()
+    got = attr_writes(repo, cls, override, cls, must=True)
+    return miss_opt, sorted(stores - got)
 
 
 # ====================================================================================== run
